@@ -45,8 +45,20 @@ static H10 gen_h10(Rng& rng) {
   { std::string m = "bystander "; for (int i = 0; i < 400; i++) m += "ab"; h.bufs[B_MANY] = m; }
   h.bufs[B_FIBER] = "xx " + std::string(40, 'a') + "@example.com bystander";
   h.bufs[B_TEXT2] = gen_text_buffer(rng, "alpha_text reg77ex bystander short@example.com", 300);
-  int n = (int) rng.range(3, 12);
+  // one history in eight runs over a rule set without a single string (filesize, uintN, rule references, a global
+  // rule in a second namespace): the per-scan cleanup must not depend on there being strings
+  bool stringless = rng.chance(1, 8);
+  if (stringless) {
+    h.spec.sources.clear();
+    h.spec.sources.push_back({"", "rule nf_big { condition: filesize > 100 }\nrule nf_ref { condition: nf_big }\nrule nf_mz { condition: uint16(0) == 0x5a4d }\nrule nf_empty { condition: filesize == 0 }\nprivate rule nf_priv { condition: filesize > 5 }\nrule nf_dep { condition: nf_priv and not nf_mz }\n"});
+    h.spec.sources.push_back({"g", "global rule g_gate { condition: filesize > 30 }\nrule g_any { condition: true }\nrule g_small { condition: filesize < 400 }\n"});
+  }
+  // one history in thirty is long: the same scanner is used a few hundred times on regexp-heavy data (anything that
+  // is budgeted per scanner lifetime instead of per scan runs out)
+  bool longrun = !stringless && rng.chance(1, 30);
+  int n = longrun ? 260 : (int) rng.range(3, 12);
   for (int i = 0; i < n; i++) {
+    if (longrun) { Op o; o.buf = (i % 3 == 0) ? B_FIBER : (i % 3 == 1) ? B_TEXT2 : B_TEXT; o.plan = P_NONE; o.k = 0; o.entry = 0; o.flags = 3; o.mdata = 0; h.ops.push_back(o); continue; }
     Op o; o.buf = (int) rng.below(B_NKINDS); o.plan = rng.chance(2, 5) ? P_NONE : (int) rng.below(P_NPLANS);
     o.k = (int) rng.below(40); o.entry = (int) rng.below(3); o.flags = (i > 0 && rng.chance(3, 4)) ? h.ops[i - 1].flags : (int) rng.below(4); o.mdata = (int) rng.below(3);
     if (o.plan == P_NR_RESUME || o.plan == P_NR_ABANDON) o.entry = 2;
